@@ -36,6 +36,18 @@ class PyAM:
         return False
 
 
+class PyAMX(PyAM):
+    """its __aexit__ suspends: the frame can be looked at while this manager is exiting"""
+    idx = None
+
+    async def __aexit__(self, *a):
+        await trap(["x", self.idx])
+        return False
+
+
+REENTRANT = ("pym", "rlock", "nullcontext", "suppress", "apym", "apym_sx", "anull")
+
+
 async def _agen_for_closing():
     yield 1
 
@@ -77,6 +89,8 @@ def _mk_sync(kind):
 def _mk_async(kind):
     if kind == "apym":
         return PyAM()
+    if kind == "apym_sx":
+        return PyAMX()
     if kind == "aexitstack":
         return contextlib.AsyncExitStack()
     if kind == "anull" and PY >= (3, 10):
@@ -148,22 +162,34 @@ def run(req):
     ns = {"trap": trap}
     exec(compile(src, fname, "exec"), ns)
     items = []
+    reuse = []
     for w in ir["withs"]:
         is_async = w["async"] and kind != "gen"
         for it in w["items"]:
             items.append((it["k"], is_async, it["as"]))
+            reuse.append(bool(it.get("reuse")))
     made = {}
+    obs = []
+    stats = {"points": 0, "c_implemented_active": 0, "max_active": 0, "same_object_entered_again": 0, "exiting_points": 0}
 
     def mk(i):
         k, is_async, _as = items[i]
-        if not is_async and k in ("apym", "aexitstack", "anull", "aclosing"):
+        if not is_async and k in ("apym", "apym_sx", "aexitstack", "anull", "aclosing"):
             k = "pym"      # an async item of a program whose kind (plain generator) has no `async with`
+        if reuse[i] and k in REENTRANT:
+            for j in range(i - 1, -1, -1):
+                if items[j][0] == items[i][0] and items[j][1] == is_async and j in made:
+                    made[i] = made[j]
+                    stats["same_object_entered_again"] += 1
+                    return made[i]
         made[i] = _mk_async(k) if is_async else _mk_sync(k)
+        if isinstance(made[i], PyAMX):
+            made[i].idx = i
         return made[i]
 
     obj = ns["f"](mk)
-    obs = []
-    stats = {"points": 0, "c_implemented_active": 0, "max_active": 0}
+
+    pending = [None]      # the asend() awaitable of an async generator that is suspended inside an __aexit__
 
     def step():
         try:
@@ -171,24 +197,42 @@ def run(req):
                 return next(obj)
             if kind == "coro":
                 return obj.send(None)
-            return obj.asend(None).send(None)
+            if pending[0] is None:
+                pending[0] = obj.asend(None)
+            return pending[0].send(None)      # (a value that arrives this way was trapped below the generator's frame)
         except StopIteration as ex:
+            pending[0] = None
             if kind == "agen" and ex.args:
                 return ex.args[0]
             return "done"
         except StopAsyncIteration:
+            pending[0] = None
             return "done"
 
-    for j in range(len(expect) + 2):
+    left = set()      # items whose exit has begun
+    j = -1
+    for _n in range(3 * len(expect) + 4):
         v = step()
         if v == "done":
             break
-        if v != j:
-            return {"harness_error": "suspension %r where %r was expected\n%s" % (v, j, src)}
-        want = [made[i] for i in expect[j]]
+        exiting = None
+        if isinstance(v, list) and v[:1] == ["x"]:
+            # suspended inside the __aexit__ of item v[1] (or of a later item that entered the same object again: the
+            # innermost one leaves first): the nest is linear, so everything opened before it is still active
+            exiting = max(i for i in range(len(items)) if made.get(i) is made[v[1]] and i not in left)
+            left.add(exiting)
+            active_now = list(range(exiting + 1))
+            stats["exiting_points"] += 1
+        else:
+            j += 1
+            if v != j:
+                return {"harness_error": "suspension %r where %r was expected\n%s" % (v, j, src)}
+            active_now = expect[j]
+            left.update(i for i in range(len(items)) if i in made and i not in active_now and i <= max(active_now + [-1]))
+        want = [made[i] for i in active_now]
         stats["points"] += 1
         stats["max_active"] = max(stats["max_active"], len(want))
-        stats["c_implemented_active"] += sum(1 for i in expect[j] if items[i][0] in C_IMPLEMENTED)
+        stats["c_implemented_active"] += sum(1 for i in active_now if items[i][0] in C_IMPLEMENTED)
         for mode in ("trick", "ref"):
             set_trickery_enabled(mode == "trick")
             try:
@@ -212,13 +256,16 @@ def run(req):
                 obs.append({"kind": mode + ".managers", "at": j, "got": [type(o).__name__ for o in got],
                             "want": [type(o).__name__ for o in want]})
                 continue
-            for c, i in zip(ctxs, expect[j]):
-                if bool(c.is_async) != items[i][1] or c.is_exiting:
+            for c, i in zip(ctxs, active_now):
+                if bool(c.is_async) != items[i][1] or bool(c.is_exiting) != (i == exiting):
                     obs.append({"kind": mode + ".flags", "at": j, "item": i, "is_async": c.is_async,
                                 "is_exiting": c.is_exiting})
                 if mode == "trick":
                     wantname = ("v%d" % i) if items[i][2] else None
-                    if c.varname != wantname:
+                    # (an item without target may be given the name of a local that is bound to its manager: with the same
+                    # object entered twice that is the other item's `as` variable)
+                    alias = [("v%d" % d) for d in made if made[d] is made[i] and items[d][2] and d != i]
+                    if c.varname != wantname and not (wantname is None and c.varname in alias):
                         obs.append({"kind": "trick.varname", "at": j, "item": i, "got": c.varname, "want": wantname})
             del st, ctxs
     else:
